@@ -295,14 +295,14 @@ bloom_filter_alloc<A> bloom_filter_alloc<A>::deserialize(std::istream& is, const
 
   // if empty, stop reading
   if (is_empty) {
-    return bloom_filter_alloc<A>(num_longs << 6, num_hashes, seed, allocator);
+    return bloom_filter_alloc<A>(static_cast<uint64_t>(num_longs) << 6, num_hashes, seed, allocator);
   }
 
   const uint64_t num_bits_set = read<uint64_t>(is);
   const bool is_dirty = (num_bits_set == DIRTY_BITS_VALUE);
 
   // allocate memory
-  const uint64_t num_bytes = num_longs << 3;
+  const uint64_t num_bytes = static_cast<uint64_t>(num_longs) << 3;
   AllocUint8 alloc(allocator);
   uint8_t* bit_array = alloc.allocate(num_bytes);
   if (bit_array == nullptr) {
@@ -311,7 +311,7 @@ bloom_filter_alloc<A> bloom_filter_alloc<A>::deserialize(std::istream& is, const
   read(is, bit_array, num_bytes);
 
   // pass to constructor
-  return bloom_filter_alloc<A>(seed, num_hashes, is_dirty, true, false, num_longs << 6, num_bits_set, bit_array, nullptr, allocator);
+  return bloom_filter_alloc<A>(seed, num_hashes, is_dirty, true, false, static_cast<uint64_t>(num_longs) << 6, num_bits_set, bit_array, nullptr, allocator);
 }
 
 template<typename A>
